@@ -7,8 +7,16 @@ identity is the *chunking* of value I/O by ItemValWrite / ItemValRead callbacks,
 is proved here: chunked writes leave the same bytes, chunked reads return the same bytes.  The
 correspondence stream runs every other property's observables under random subsets (thorough: all
 2^8) of installed callbacks against the callback-free model.
+
+"Whether each code path consults the callback consistently" (the property's own reason why tests
+cannot settle it) is decided on tables the translator regenerates from /repo on every run
+(`Gen/Callbacks.lean`): each callback field is consulted in exactly one function — its dispatch
+wrapper — so no path can consult it differently from another; the value's length and bytes are
+taken from `Item.Val` only in the default arms of those wrappers; every store derived from another
+(snapshot, CopyTo destination) is given the whole callback struct.
 -/
 import Gkv.Proofs.GlueD
+import Gkv.Gen.Callbacks
 open Std
 
 namespace Gkv.Props.C17
@@ -28,5 +36,45 @@ theorem chunked_read_same_bytes (f : Bytes) (off len c : Nat) (hc : 1 ≤ c) (b 
 theorem chunked_roundtrip (f : Bytes) (b : Bytes) (c c' : Nat) (hc : 1 ≤ c) (hc' : 1 ≤ c') :
     readChunks (writeChunks f f.length b c (b.length + 1)) f.length b.length c' (b.length + 1) = some b :=
   readChunks_writeChunks f b c c' hc hc'
+
+/-- every `StoreCallbacks` field is consulted in exactly one function (a nil test and a call each):
+    its dispatch wrapper.  A second place that consults a callback — or that bypasses the wrapper's
+    nil test — changes this table. -/
+theorem each_callback_has_one_dispatch_site :
+    Gen.Callbacks.fieldUses.eraseDups =
+      [("Item.NumValBytes", "ItemValLength"),
+       ("Store.ItemAddRef", "ItemAddRef"),
+       ("Store.ItemAlloc", "ItemAlloc"),
+       ("Store.ItemDecRef", "ItemDecRef"),
+       ("Store.ItemValRead", "ItemValRead"),
+       ("Store.ItemValWrite", "ItemValWrite"),
+       ("Store.validateAndSetCollections", "KeyCompareForCollection"),
+       ("itemLoc.read", "AfterItemRead"),
+       ("itemLoc.write", "BeforeItemWrite")] ∧
+    ∀ f ∈ Gen.Callbacks.fieldUses.map (·.2), (Gen.Callbacks.fieldUses.map (·.2)).count f = 2 := by decide
+
+/-- the value's length is computed from `Item.Val` in one place (the default arm of
+    `Item.NumValBytes`, behind the `ItemValLength` test) and its bytes go to / come from the file in
+    one place each (the default arms of `Store.ItemValWrite` / `Store.ItemValRead`); the remaining
+    uses neither measure nor transfer the value (nil tests, `Get`'s result, `Item.Copy`).  A
+    `len(item.Val)` on a write, aggregate or reload path refutes this. -/
+theorem value_is_measured_and_moved_only_in_the_wrappers :
+    Gen.Callbacks.valUses.filter (fun u => u.2 == "len" || u.2 == "io" || u.2 == "store" || u.2 == "use") =
+      [("Item.NumValBytes", "len"),
+       ("Store.ItemValRead", "io"),
+       ("Store.ItemValRead", "store"),
+       ("Store.ItemValWrite", "io")] ∧
+    Gen.Callbacks.valUses.filter (fun u => !(u.2 == "len" || u.2 == "io" || u.2 == "store" || u.2 == "use")) =
+      [("Collection.Get", "return"),
+       ("Collection.SetItem", "nilcmp"),
+       ("Item.Copy", "copy"),
+       ("itemLoc.read", "nilcmp")] := by decide
+
+/-- a store made from another store — a snapshot, a CopyTo destination — receives the other's whole
+    callback struct (CopyTo did not before the F12 repair), and the struct is used as a whole nowhere
+    else -/
+theorem derived_stores_inherit_all_callbacks :
+    Gen.Callbacks.structUses =
+      [("NewStoreEx", "callbacks"), ("Store.CopyTo", "s.callbacks"), ("Store.Snapshot", "s.callbacks")] := by decide
 
 end Gkv.Props.C17
